@@ -27,6 +27,7 @@ EXPLANATION = (
     ' (R6, shared with C07.R4) every path of the receive callbacks hands the received bytes to the validator: no ad-hoc test of the bytes filters frames or continuation fragments out beforehand.'
     ' (R7, shared with C18.R1) the command factories hand their arguments on unchanged, so the echo of a write is compared with the value the caller passed.'
     ' (R8) execute() returns ProtocolResponse(<result of the future>, self) exactly when that result is not None and fails the request otherwise; (R5 wire-count) a multi-register write expects the echo of the register count it announces, for every payload length 2..246.'
+    ' (R9, shared with C05.R3) _ensure_lock closes the transport of the previous event loop: a conforming answer is delivered to a protocol object whose transport belongs to the running loop.'
 )
 
 
@@ -108,6 +109,14 @@ def check(ctx: Ctx, rep: Report):
         rep.obligations.append(type(o)("C02.R7", o.key, o.where, o.what, o.status, o.detail))
     rep.rule("C02.R8", "an accepted frame is the result of the request: execute() returns ProtocolResponse(<what the future was completed with>, self) exactly when that is not None, and fails the request otherwise", 2)
     execute_delivers(ctx, rep, "C02.R8")
+    rep.rule("C02.R9", "the answer can reach the validator at all: a request from a new event loop never goes out on the transport of the previous loop (shared with C05.R3)", 1)
+    from .c05 import r3 as _c05_r3
+    from ..core import Report as _R9
+    _s9 = _R9("C05", rep.tier)
+    _c05_r3(ctx, _s9)
+    for o in _s9.obligations:
+        if o.rule == "C05.R3":
+            rep.obligations.append(type(o)("C02.R9", o.key, o.where, o.what, o.status, o.detail))
     rep.rule("C02.R5", "echoed write value is compared in two's complement and every written value is in the signed 16-bit domain", 6)
     for fam in fams.values():
         rep.analysed_add("functions", fam.validator.qualname)
